@@ -646,31 +646,36 @@ func (f *Flooder) WithdrawLocalRoutes() {
 		return
 	}
 
-	seq := f.routeMgr.IncrementSequence()
-
 	routes := make([]protocol.Route, 0, len(localRoutes))
 	for _, lr := range localRoutes {
 		routes = append(routes, ipNetToProtocolRoute(lr.Network, lr.Metric))
 	}
 
-	withdraw := &protocol.RouteWithdraw{
+	// Like ROUTE_ADVERTISE, a ROUTE_WITHDRAW carries a 1-byte route count and must fit one
+	// frame: withdraw a large route set in several messages, each with its own sequence number.
+	base := protocol.RouteWithdraw{
 		OriginAgent: f.localID,
-		Sequence:    seq,
-		Routes:      routes,
 		SeenBy:      []identity.AgentID{f.localID},
 	}
+	budget := protocol.MaxPayloadSize - advertiseHeadroom - len(base.Encode())
 
-	frame := &protocol.Frame{
-		Type:     protocol.FrameRouteWithdraw,
-		StreamID: protocol.ControlStreamID,
-		Payload:  withdraw.Encode(),
-	}
+	for _, group := range splitRoutes(routes, budget) {
+		withdraw := base
+		withdraw.Sequence = f.routeMgr.IncrementSequence()
+		withdraw.Routes = group
 
-	for _, peerID := range f.sender.GetPeerIDs() {
-		if err := f.sender.SendToPeer(peerID, frame); err != nil {
-			f.logger.Debug("failed to withdraw local routes",
-				logging.KeyPeerID, peerID.ShortString(),
-				logging.KeyError, err)
+		frame := &protocol.Frame{
+			Type:     protocol.FrameRouteWithdraw,
+			StreamID: protocol.ControlStreamID,
+			Payload:  withdraw.Encode(),
+		}
+
+		for _, peerID := range f.sender.GetPeerIDs() {
+			if err := f.sender.SendToPeer(peerID, frame); err != nil {
+				f.logger.Debug("failed to withdraw local routes",
+					logging.KeyPeerID, peerID.ShortString(),
+					logging.KeyError, err)
+			}
 		}
 	}
 }
